@@ -111,7 +111,7 @@ Proof.
     assert (Hl' : forall a0 b0 l0 o, In (a0, b0, l0) r -> a0 <= o < b0 -> mask o = l0)
       by (intros a0 b0 l0 o Hin Ho; eapply Hl; eauto; now right).
     rewrite (IH b ltac:(lia) Hc Hl').
-    unfold slice, drop.
+    rewrite ?slice_raw, ?drop_raw; unfold slice0, drop0.
     assert (Hb : b <= len P). { clear - Hc Hab. revert b Hab Hc. induction r as [|[[x y] l'] r IH']; intros b Hab Hc; cbn [chained] in Hc; [lia|].
       destruct Hc as (-> & ? & Hc). specialize (IH' y ltac:(lia) Hc). lia. }
     rewrite <- (firstn_skipn (Z.to_nat (b - from)) (skipn (Z.to_nat from) P)) at 2.
